@@ -456,6 +456,34 @@ def read_back(path, tree, limit=None):
     return bad
 
 
+def read_back_through_validator(path, limit=None):
+    """the validator object is itself a reader: after it has accepted the directory, every box read through THAT object is
+    the box a fresh reader returns under the same number (same index range, same values).  Returns a list of problems."""
+    from amr_kitchen import PlotfileCooker
+    from amr_kitchen.taste.taste import Taster
+    bad = []
+    try:
+        with alarm(120), quiet(), pools.controlled():
+            t = Taster(path, limit_level=limit, verbose=0)
+            if not bool(t):
+                return []
+            fresh = PlotfileCooker(path, limit_level=limit)
+            for lv in range(fresh.limit_level + 1):
+                nb = len(fresh.cells[lv]["indexes"])
+                if not np.array_equal(np.asarray(t.cells[lv]["indexes"]), np.asarray(fresh.cells[lv]["indexes"])):
+                    bad.append(f"level {lv}: the validator object lists the boxes in another order than a fresh reader")
+                for b in range(nb):
+                    a1 = np.asarray(t[:][lv][b]); a2 = np.asarray(fresh[:][lv][b])
+                    if a1.shape != a2.shape or a1.tobytes() != a2.tobytes():
+                        bad.append(f"level {lv} box {b}: read through the validator object that accepted the directory, the box differs from a fresh reader's")
+                        break
+    except CaseTimeout:
+        bad.append("reading through the validator object did not finish")
+    except Exception as e:
+        bad.append(f"reading through the validator object raised {type(e).__name__}: {e}")
+    return bad
+
+
 def coords_model_verdict(path, leanio, limit=None):
     """verdict ("good" | "bad" | "raises") of the Lean model of taste's box-coordinate validation (`TasteCoords.axisOK`, exact
     rationals of the header's floats) on the plotfile at `path`; None when the headers cannot be read by the oracle"""
